@@ -73,6 +73,11 @@ def gen_directed(rng, N):
 
 
 def run(ctx):
+    if ctx.shard == ctx.nshards - 1:
+        # the by-name calling convention of the shipped functions this property is about (see vlib/named.py)
+        from .. import named
+        named.monitor(ctx, ['rdd2:control_allocation'], ctx.rng("named"))
+        ctx.require("call_by_argument_name", "(by-name calls never evaluated)")
     from cyecca.models import rdd2
     rng = ctx.rng("c13")
     f = lib_call(ctx, "derive", "control_allocation", lambda: rdd2.derive_control_allocation()["f_alloc"], not_implemented_ok=False)
